@@ -54,6 +54,12 @@ def run(chk, replay=None):
         r2 = vcheck.TlcRun('NixIds', 'MC_NixIds_%s.cfg' % cfg, workers=16, coverage=False, heap='12g').run()
         r2.require_ok()
         chk.note_tlc(r2)
+    # the same design for ANY number of steps / ids / ticks: inductive invariant with Apalache (an extra on top of TLC's bounded graph)
+    a0 = vcheck.apalache_check('NixIdsInd', ['--config=MC_NixIds_apa.cfg', '--init=Init', '--inv=IndInv', '--length=0'])
+    a1 = vcheck.apalache_check('NixIdsInd', ['--config=MC_NixIds_apa.cfg', '--init=IndInit', '--inv=IndInv', '--length=1'])
+    chk.extra['apalache_inductive_invariant'] = {'init_implies_inv': a0, 'inv_is_inductive': a1}
+    if 'Error' in (a0, a1):
+        raise vcheck.MachineryError('Apalache refutes the inductive invariant of the entropy design: %s %s' % (a0, a1))
     # 2. recorded executions per schedule class
     rp = vcheck.Replayer(binary, seed=chk.seed, jobs=1, chunk=1, timeout_per_line=300)
     K, N = (16, 400) if chk.thorough else (8, 60)
